@@ -30,7 +30,9 @@ Ids(s)   == [j \in DOMAIN s |-> s[j].id]
 (* ---- the domain of the statement -------------------------------------------------- *)
 WellFormed(reads, list, opt) ==
     /\ \A i \in DOMAIN reads : reads[i].id = i /\ reads[i].len >= 0
-    /\ \A i, j \in DOMAIN list : list[i].name = list[j].name => i = j     \* the list is a function
+    \* the list is a function of the read name; a name may be listed on several lines (one per alignment) with the same entry
+    /\ \A i, j \in DOMAIN list : list[i].name = list[j].name =>
+            (list[i].hap = list[j].hap /\ list[i].ps = list[j].ps /\ list[i].chrom = list[j].chrom)
     /\ opt.ploidy \in 2..4 /\ Len(opt.req) = opt.ploidy + 1
     /\ \A i \in DOMAIN list : list[i].hap \in 0..opt.ploidy
     /\ \E h \in 1..opt.ploidy : opt.req[h + 1]        \* the CLI needs a haplotype output
